@@ -56,6 +56,13 @@ def histRun (f : Fmt) (ops : List String) : Option String := do
         let (st', o) := st.fromRoot id (fun t => "e=" ++ showErr (mkdirRootsApi f [] [0x74] true [t] []).err) (fun e => "e=" ++ showErr (some e))
         let r ← go st' rest
         pure (o :: r)
+      | ["V", id] => do
+        let id ← idOf id
+        let cls (e : Option Err) : String := String.ofList ((showErr e).toList.takeWhile (· != ':'))
+        let (st', o) := st.fromRoot id (fun t => "e=" ++ cls (verifyRootsApi f (strBytes "/nonexistent-verif-target") false [t] []))
+          (fun e => "e=" ++ cls (some e))
+        let r ← go st' rest
+        pure (o :: r)
       | ["J", id] => do
         let id ← idOf id
         let (st', o) := st.fromRoot id (fun t => "f=" ++ showF (toFormatted t) ++ " e=nil") (fun e => "f=_ e=" ++ showErr (some e))
